@@ -171,6 +171,23 @@ def merge_rules(R, pfx="C07"):
                descr="get_local_transactions answers Ok only with the decoded local set, or empty when nothing is stored (a record of another kind is an error, not \"empty\")")
     from props.C01 import get_serves_unsettled
     get_serves_unsettled(R, pfx + ".local.unsettled")
+    # a delivered version that differs from the stored one is handed on to validation: the network-facing put skips a non-chunk
+    # record only when its content hash equals the stored one
+    from props.C04 import RS_PUT
+    rp = R.body(pfx + ".deliver", RS_PUT)
+    if rp is not None:
+        prep(rp)
+        g = cfg_of(rp)
+        newh = lambda b: Taint(b, through="all").closure(call_results(["xor_name::XorName::from_content"])(b))
+        oldh = lambda b: Taint(b, through="all").closure(call_results(["std::collections::hash::map::HashMap::get"])(b)) - newh(b)
+        same = CmpGuard(newh, oldh, "Eq", "incoming content hash == stored content hash", close=False)
+        n_, acc, rej = same.edges(rp)
+        spawn = set(CallSink("tokio::task::spawn::spawn").blocks(rp))
+        okd = bool(acc) and bool(rej) and bool(spawn) and all(spawn & g.reach((d,)) for _, d in rej) and all(not (spawn & g.reach((d,))) for _, d in acc)
+        if not okd:
+            R.viol(pfx + ".deliver", "update-not-forwarded", "RecordStore::put does not forward a non-chunk record exactly when its content hash differs from the stored one "
+                   "(a differing version must reach validation; only the identical one may be skipped)", rp, rp.lines[0])
+        R.inst(pfx + ".deliver", "K10 polarity", "network put: identical content is skipped, differing content is forwarded as UnverifiedRecord", n_, okd)
     # an accepted update really replaces the stored bytes (put_verified writes unless the identical bytes are cached) ...
     from props.C01 import put_persist_rules
     put_persist_rules(R, pfx + ".store")
